@@ -70,7 +70,7 @@ func runC19(r *simkit.Run) {
 		}
 	}
 	// fault plan: each enabled kind fires on a matching statement with probability 1/den
-	kinds := []string{"cut-in-result-chain", "slow-begin", "exec-error", "begin-error", "commit-error", "rollback-error", "autocommit-error", "set-error", "use-error", "drop-conn", "slow", "reply-lost", "connect-refused"}
+	kinds := []string{"backend-drops-idle-connections", "cut-in-result-chain", "slow-begin", "exec-error", "begin-error", "commit-error", "rollback-error", "autocommit-error", "set-error", "use-error", "drop-conn", "slow", "reply-lost", "connect-refused"}
 	enabled := map[string]bool{}
 	if !strict {
 		n := tp.Range(1, 3)
@@ -238,6 +238,20 @@ func runC19(r *simkit.Run) {
 	driveBusy(r, tp, 6000, func() {
 		if shortTimeout && tp.Chance(1, 8) {
 			r.Advance([]time.Duration{time.Second, 6 * time.Second}[tp.Choose(2)])
+		}
+		if faultsOn && enabled["backend-drops-idle-connections"] && len(h.inFlight) == 0 && tp.Chance(1, 10) {
+			// the backend closes the connections nobody is using (wait_timeout, a restart) and some time passes:
+			// the pool pings a connection that was idle for more than its ping period before handing it out
+			for _, b := range w.Cl.Backends {
+				for _, bc := range b.Conns {
+					if !bc.Closed {
+						bc.Kill()
+					}
+				}
+			}
+			r.Fault("backend-drops-idle-connections")
+			lastFault = r.Now()
+			r.Advance(5 * time.Second)
 		}
 		if len(r.Enabled()) > 0 || finished == nClients {
 			// quiescent with respect to client operations that are not blocked on time
